@@ -15,7 +15,7 @@ import re
 from mitmproxy.utils import strutils
 
 from vmc import par
-from vmc.tally import Tally
+from vmc.tally import HarnessError, Tally
 
 META = {
     "level": "exploration",
@@ -133,30 +133,45 @@ def one(data: bytes, t: Tally, sample=False, verbose=False):
     t.case({"data": data} if sample else None, nontrivial=nontrivial, key=data.hex())
 
 
-def gen_cases(n16, n4):
-    """canonical, simplest-first, de-duplicated by construction (a later family skips strings an
-    earlier family already produced)"""
-    yield b""
-    for a in range(256):
-        yield bytes([a])
-    for a in range(256):
-        for b_ in range(256):
-            yield bytes([a, b_])
-    s16 = set(ALPHA16)
-    for n in range(3, n16 + 1):
-        for tup in itertools.product(ALPHA16, repeat=n):
-            yield b"".join(tup)
-    s4 = set(ALPHA4)
-    assert s4 <= s16
-    for n in range(max(3, n16 + 1), n4 + 1):  # lengths <= n16 over ALPHA4 are already inside the ALPHA16 family
-        for tup in itertools.product(ALPHA4, repeat=n):
-            yield b"".join(tup)
+FULL = [bytes([a]) for a in range(256)]
+FAMILIES = {"full": FULL, "a16": ALPHA16, "a4": ALPHA4}
+SPLIT = 4096  # a task enumerates at most this many strings: the parent deals tasks, workers spell the strings out
+
+
+def gen_tasks(n16, n4):
+    """a task = (family, length, prefix): all strings of that length over the family's alphabet that start with the
+    prefix. Canonical simplest-first order; de-duplicated by construction (a later family only takes lengths an
+    earlier family did not produce: full alphabet 0-2, 16 symbols 3..n16, 4 symbols n16+1..n4)."""
+    assert set(ALPHA4) <= set(ALPHA16)
+    plan = [("full", n) for n in range(0, 3)] + [("a16", n) for n in range(3, n16 + 1)] + \
+           [("a4", n) for n in range(max(3, n16 + 1), n4 + 1)]
+    for fam, n in plan:
+        k = len(FAMILIES[fam])
+        plen = 0
+        while k ** (n - plen) > SPLIT and plen < n:
+            plen += 1
+        for prefix in itertools.product(range(k), repeat=plen):
+            yield [fam, n, list(prefix)]
+
+
+def expand(task):
+    fam, n, prefix = task
+    alpha = FAMILIES[fam]
+    head = b"".join(alpha[i] for i in prefix)
+    for tup in itertools.product(alpha, repeat=n - len(prefix)):
+        yield head + b"".join(tup)
+
+
+def count(task):
+    fam, n, prefix = task
+    return len(FAMILIES[fam]) ** (n - len(prefix))
 
 
 def chunk_fn(chunk):
     t = Tally()
-    for i, data in enumerate(chunk):
-        one(data, t, sample=(i in (0, len(chunk) // 2)) and len(data) >= 3)
+    for j, task in enumerate(chunk):
+        for i, data in enumerate(expand(task)):
+            one(data, t, sample=(i == 0 and j == len(chunk) // 2 and len(data) >= 3))
     return t
 
 
@@ -171,11 +186,19 @@ def run(ctx):
         "alphabet4_max_len": n4,
         "options": "all 4 (keep_spacing, escape_single_quotes) combinations per string",
     }
-    cases = list(gen_cases(n16, n4))
-    ctx.log("%d byte strings x 4 option combinations" % len(cases))
-    par.pmap_tally(chunk_fn, cases, ctx.tally)
-    ctx.info["byte_strings"] = len(cases)
-    ctx.info["option_combinations_evaluated"] = len(cases) * 4
+    tasks = list(gen_tasks(n16, n4))
+    total = sum(count(tk) for tk in tasks)
+    ctx.log("%d byte strings x 4 option combinations in %d tasks" % (total, len(tasks)))
+    # quick is ~5 s of CPU: in-process (forking the pool costs more than it saves on a loaded machine);
+    # thorough goes to 8 workers, one fork each
+    if ctx.thorough:
+        par.pmap_tally(chunk_fn, tasks, ctx.tally, nchunks=8, nproc=8)
+    else:
+        par.pmap_tally(chunk_fn, tasks, ctx.tally, nproc=1)
+    if ctx.tally.evaluations != total:
+        raise HarnessError("enumerated %d strings, expected %d" % (ctx.tally.evaluations, total))
+    ctx.info["byte_strings"] = total
+    ctx.info["option_combinations_evaluated"] = total * 4
 
 
 def replay(case, t: Tally, verbose=False):
